@@ -602,6 +602,15 @@ def v_root(p, q, t):
     return c
 
 
+def alg_sqrt(n):
+    """exact algebraic constant sqrt(n) for a non-square positive integer n: a per-path constant r with r*r == n, r > 0"""
+    c, new = ack("sqrtc", (Fr(n),), lambda x: x ** 0.5)
+    if new:
+        CTX.add_axiom(c * c == n)
+        CTX.add_axiom(c > 0)
+    return c
+
+
 def v_pow(b, e):
     """b**e with symbolic exponent (b > 0): abstract, with axioms linking integer exponent shifts"""
     if type(b) is Fr and type(e) is Fr:
